@@ -5,6 +5,8 @@ sys.path.insert(0, os.path.dirname(os.path.abspath(__file__)))
 from vx import registry as R
 
 CLAIM = {
+ 'C13': ('Complete proofs (Kani/CBMC, loop-free harnesses over fully symbolic inputs, regenerated from the current source text on every run): every wire struct has the size, field offsets and field widths of the kernel structure measured by a C probe of /usr/include/linux/fuse.h (field types compared too), every public constant, bitflag and enum discriminant has the kernel value, Opcode::from maps all 2^32 inputs correctly (unknown -> MaxOpcode), and the conversions stat64 <-> Attr, statvfs64 -> Kstatfs, SetattrIn -> stat64, Entry -> EntryOut preserve every field with all field values symbolic.',
+         'Kani function-level harnesses (loop-free, full domain) generated from the kernel header and the Rust source text'),
  'C04': ('Deductive proof (Verus, any number and sizes of segments) of the transport core on real text: IoBuffers::mark_used advances the cursor over the segment list by exactly n bytes (the remaining byte addresses are the old ones with the first min(n, total) removed, in order, none skipped or repeated), counts them, fails on counter overflow without moving, and its unwrap() cannot panic; consume moves exactly what the callback reports and nothing on error; FuseDevWriter space accounting (available + written = capacity, the space check fails iff the request exceeds it) and FuseDevWriter::commit performs exactly one device write of own ++ other bytes. Readers/writers built on raw pointers are NOT covered.',
          'Verus contracts with loop invariants over a sequence-of-addresses view, on extracted real text'),
  'C08': ('Deductive proof (Verus, any store contents, any count) on the real text of the passthrough InodeStore and PassthroughFs::forget_one: insert/remove/get maintain the data, id and handle maps exactly (remove deletes exactly that inode, keeps the id -> number record when asked to, releases it otherwise); forget_one never touches the root, may only write current-minus-count saturating at zero into the reference count, removes the inode only in the branch where the successful compare-exchange wrote zero, changes nothing but that inode, and keeps the id -> number record whenever numbers are allocated by the server. The history-level accounting of references is NOT decided.',
